@@ -97,6 +97,13 @@ class Walker:
             raise IndexError("Cannot choose from an empty sequence")
         return seq[self.branch(len(seq))]
 
+    def sample(self, population, k):
+        pop = list(population)
+        if len(pop) > MAX_SHUFFLE:
+            raise TreeTooBig()
+        opts = list(itertools.permutations(range(len(pop)), k))
+        return [pop[i] for i in opts[self.branch(len(opts))]]
+
     def random(self):
         raise oracles.OracleProtocol("random.random() cannot be enumerated")
 
@@ -264,8 +271,8 @@ def compare(case, impl_obs, model):
 def check_calls(case, impl_obs):
     if not isinstance(impl_obs, dict):
         return [("c01_check", G.c01_check_tree(case, ["!exc", "x"]))]
-    return [("c03_check", [case["tag"], case["jds"], case["sizes"], case.get("mis", []),
-                           [[c, m] for c, m in impl_obs["hist"]]])]
+    return [("c03_check", G.clamp([case["tag"], case["jds"], case["sizes"], case.get("mis", []),
+                                    [[c, m] for c, m in impl_obs["hist"]]]))]
 
 
 def check_verdict(case, impl_obs, raws):
@@ -273,9 +280,11 @@ def check_verdict(case, impl_obs, raws):
     if v == 2 or not G.config_total(case):
         return None
     if G.is_exc(impl_obs):
-        if impl_obs[1] in ("Forbidden", "OracleProtocol"):
-            return ("the generator draws randomness outside random.shuffle (re-seeding / private generator): the "
-                    "placement law is not the uniform one")
+        if impl_obs[1] == "Forbidden":
+            return ("the generator re-seeds the RNG or draws from a private / numpy generator: its placements are "
+                    "not a function of the uniform random.shuffle outcomes (degenerate or unknown law)")
+        if impl_obs[1] in ("OracleProtocol", "TreeTooBig"):
+            return None        # protocol mismatch: reported through the correspondence
         return "implementation raised %s on a valid input" % impl_obs[1]
     if v == 1:
         return None
